@@ -401,6 +401,9 @@ def run(tier, seed):
             if not proofs_ok:
                 p["coq_output"] = (blog + pa)[-3000:]
             res.violation("broken", p, no_input=True)
+        # the probe loop of health_check.go (cadence): model/Ticker.v, props/C09probe.v, exact comparison on the virtual clock
+        import c09probe
+        c09probe.run_probe(tier, seed, res)
         return res.finish()
     finally:
         work.cleanup()
